@@ -2,7 +2,7 @@
 //! on its whole input space: the function is simply called; the only oracle is "returns normally"
 //! (and, across build profiles, "returns the same bits" via the digest). Whole-body todo!() stubs are
 //! passed in by the driver (derived from the sources at run time) and excluded.
-use crate::fixed::unary;
+use crate::fixed::unary_total as unary;
 use crate::fx::Fx;
 use softposit::{P16E1, P32E2, P8E0};
 use std::collections::BTreeSet;
